@@ -54,7 +54,7 @@ theorem indexRuneCase_first (cfg : A.Cfg) (s : Bytes) (r : Nat) (hv : validRune 
 
 /-- `indexRune` returns the first member of the orbit *and the width of the code point found* (the skip
     loop of `Index` advances by it) -/
-theorem indexRune_first (cfg : A.Cfg) (s : Bytes) (u : Nat) (hv : validRune u) (hu : u ≠ 0xFFFD) :
+theorem indexRune_first_with_width (cfg : A.Cfg) (s : Bytes) (u : Nat) (hv : validRune u) (hu : u ≠ 0xFFFD) :
     A.IsFirstBy (fun x => Fold.caseFold x == Fold.caseFold u) s (A.indexRune cfg s (u : Int)) :=
   A.indexRune_firstBy cfg s u hv hu
 
